@@ -104,4 +104,15 @@ PROPS = {
         "rule": "trk.info for every declared variant (taken from the enum declaration at build time), trk.dec for every shaped string whose area exists plus 1 in 97 of the others (all 2.0 M go through the oracle), every 1-byte mutation of every wire form over 9 values, lower-cased and truncated forms, random 6-byte values; distinct = distinct op text",
         "assumptions": ["'track area' = the two letters in front of the configuration number"],
     },
+    "C16": {
+        "level_text": "Lean theorems on the hand model of GameVersion's FromStr/Display/Eq/Ord: the parser is a closed composition of structurally recursive list functions (accepted without fuel: it terminates on every string and has no panic value); parse results carry an upper-cased ASCII letter; letter case never changes the result; the printed form of every well-formed version with a finite number parses back to an equal version (over abstract float print/parse and char::is_numeric with four recorded laws); cmp is exactly lexicographic on (number, letter, revision with missing = 0), reflexive, antisymmetric, transitive, total, equal iff ==, and congruent with ==. Tied by correspondence: all strings over an 8-character class alphabet up to length 5 (quick) / 7 (thorough), LFS-shaped and random Unicode strings, all pairs of parsed versions for cmp/eq.",
+        "level_note": "Trusted: Lean kernel; the harness. Abstracted with laws (checked by running the dependency, not proved): f32 Display/FromStr, char::is_numeric, usize Display/FromStr. The order of non-negative non-NaN floats is modelled as the order of their bit patterns; the parser cannot produce NaN or negative numbers (checked by the oracle on every parsed value).",
+        "technique": "Lean 4 proof (structural definitions, list lemmas, omega) over an abstract float/Unicode environment + differential correspondence",
+        "trusted": [
+            "hand-modelled, tied by the correspondence run only: GameVersion::from_str (three-phase loop), Display, PartialEq, Ord",
+            "parameters with laws: char::is_numeric is supplied per character by the harness from the real function; f32 parsing is re-implemented exactly in the model (decimal -> nearest f32, ties to even) and compared on every line; f32 printing is supplied by the harness and its round-trip law is swept over the non-negative finite bit patterns",
+        ],
+        "rule": "gv.parse per string (characters given as code points with the real is_numeric flag), gv.print per successfully parsed finite version, gv.cmp per ordered pair of a pool of parsed versions; distinct = distinct op text",
+        "assumptions": ["versions compared by Ord were obtained by parsing (non-negative, non-NaN numbers)", "revision numbers fit usize (anything larger is a parse error)"],
+    },
 }
